@@ -9,21 +9,24 @@ Section Abstract.
   Variable H : Type.
   Variable wrap : mwid -> H -> H.
   Variable special : kind -> H.
+  Variable custom : kind -> H.
   Variable route_h : nat -> H.
   Variable grow : nat -> nat -> nat.
 
   Notation heap := (@heap mw).
-  Notation new := (new H wrap special grow).
+  Notation new := (new H wrap special custom grow).
   Notation new_route := (new_route H wrap route_h grow).
 
-  Definition special_chain (G : list (mwid * N)) (k : kind) : H := fold_right wrap (special k) (scoped G k).
+  Definition base_h (opts : list gopt) (k : kind) : H :=
+    match k with KRedirect | KRoute => special k | _ => if custom_of opts k then custom k else special k end.
+  Definition special_chain (opts : list gopt) (G : list (mwid * N)) (k : kind) : H := fold_right wrap (base_h opts k) (scoped G k).
 
   Lemma new_spec gopts :
     match spec_globals gopts [] with
     | None => exists h, new gopts = (h, Err ErrInvalidConfig)
     | Some G => exists h s,
-        new gopts = (h, Ok (mkRouter H s (special_chain G KNoRoute) (special_chain G KNoMethod)
-                                          (special_chain G KRedirect) (special_chain G KOptions)))
+        new gopts = (h, Ok (mkRouter H s (special_chain gopts G KNoRoute) (special_chain gopts G KNoMethod)
+                                          (special_chain gopts G KRedirect) (special_chain gopts G KOptions) (cfg_of gopts)))
         /\ wf h s /\ contents h s = map mk_glob G
     end.
   Proof.
@@ -34,7 +37,7 @@ Section Abstract.
       rewrite !(apply_middleware_spec H wrap h s _ _ Hwf), Hc.
       change NoRouteHandler with (scope_const KNoRoute). change NoMethodHandler with (scope_const KNoMethod).
       change RedirectHandler with (scope_const KRedirect). change OptionsHandler with (scope_const KOptions).
-      rewrite !filter_sel_globs. auto.
+      rewrite !filter_sel_globs. eauto.
     - subst ok. cbn [negb]. eauto.
   Qed.
 
@@ -43,12 +46,12 @@ Section Abstract.
     rt_hself H rt = fold_right wrap (route_h hid) rids /\
     rt_hall H rt = fold_right wrap (route_h hid) (scoped G KRoute ++ rids).
 
-  Lemma new_route_spec (h : heap) (r : router H) G hid ms h1 res :
+  Lemma new_route_spec (h : heap) (r : router H) G hid ms ts h1 res :
     wf h (r_mws H r) -> contents h (r_mws H r) = map mk_glob G ->
-    new_route h r hid ms = (h1, res) ->
+    new_route h r hid ms ts = (h1, res) ->
     wf h1 (r_mws H r) /\ contents h1 (r_mws H r) = map mk_glob G /\
     if has_nil ms then res = Err ErrInvalidConfig
-    else exists rt, res = Ok rt /\ route_ok G rt hid (somes ms) /\
+    else exists rt, res = Ok rt /\ route_ok G rt hid (somes ms) /\ rt_flags H rt = route_flags (r_cfg H r) ts /\
                     wf h1 (rt_mws H rt) /\ contents h1 (rt_mws H rt) = map mk_glob G ++ map mk_rt (somes ms) /\
                     (* the route shares the router's array exactly when it has no middleware of its own, and then it is clipped *)
                     (s_arr (rt_mws H rt) = s_arr (r_mws H r) <-> somes ms = []) /\
@@ -69,7 +72,7 @@ Section Abstract.
     specialize (Hc1 eq_refl). rewrite Hc0 in Hc1. fold mk_rt in Hc1.
     rewrite (apply_route_middleware_spec H wrap h1 s1 _ Hwf1), Hc1 in Hrun.
     inversion Hrun; subst res; clear Hrun. eexists; split; [reflexivity|].
-    split; [|split; [assumption|split; [assumption|]]].
+    split; [|split; [reflexivity|split; [assumption|split; [assumption|]]]].
     - unfold route_ok; cbn [rt_hbase rt_hself rt_hall]. split; [reflexivity|]. split.
       + rewrite filter_app, filter_rsel_globs. cbn [app]. rewrite filter_rsel_rts. reflexivity.
       + rewrite filter_app, map_app. change RouteHandler with (scope_const KRoute) at 1.
@@ -116,104 +119,108 @@ Section Runs.
   Variable grow : nat -> nat -> nat.
   Notation heap := (@heap mw).
   Notation H := trace.
+  Notation dflt := (fun _ : kind => @nil ev).
 
-  Definition rel1 (G : list (mwid * N)) (a : nat * route H) (b : nat * (nat * list mwid)) : Prop :=
-    fst a = fst b /\ route_ok H twrap troute G (snd a) (fst (snd b)) (snd (snd b)).
+  Definition rel1 (G : list (mwid * N)) (a : nat * route H) (b : nat * sval) : Prop :=
+    fst a = fst b /\ route_ok H twrap troute G (snd a) (fst (fst (snd b))) (snd (fst (snd b))) /\
+    rt_flags H (snd a) = snd (snd b).
 
-  Lemma lookup_rel G tab stab key :
+  Lemma lookup_rel G tab (stab : Spec.stab) key :
     Forall2 (rel1 G) tab stab ->
     match lookup H key tab, slookup key stab with
-    | Some rt, Some (hid, rids) => route_ok H twrap troute G rt hid rids
+    | Some rt, Some (hid, rids, fl) => route_ok H twrap troute G rt hid rids /\ rt_flags H rt = fl
     | None, None => True
     | _, _ => False
     end.
   Proof.
-    induction 1 as [|[k rt] [k' [hid rids]] tab stab (Hk & Hr) _ IH]; simpl; auto.
+    induction 1 as [|[k rt] [k' [[hid rids] fl]] tab stab (Hk & Hr & Hf) _ IH]; simpl; auto.
     cbn in Hk; subst k'. destruct (Nat.eqb k key); auto.
   Qed.
 
-  Lemma replace_rel G tab stab key rt hid rids :
-    Forall2 (rel1 G) tab stab -> route_ok H twrap troute G rt hid rids ->
-    Forall2 (rel1 G) (replace H key rt tab) (sreplace key (hid, rids) stab).
+  Lemma replace_rel G tab (stab : Spec.stab) key rt hid rids fl :
+    Forall2 (rel1 G) tab stab -> route_ok H twrap troute G rt hid rids -> rt_flags H rt = fl ->
+    Forall2 (rel1 G) (replace H key rt tab) (sreplace key (hid, rids, fl) stab).
   Proof.
-    induction 1 as [|[k rt0] [k' v] tab stab (Hk & Hr) Hrest IH]; intros Hok; simpl; auto.
-    cbn in Hk; subst k'. destruct (Nat.eqb k key); constructor; auto; split; auto.
+    induction 1 as [|[k rt0] [k' v] tab stab (Hk & Hr) Hrest IH]; intros Hok Hfl; simpl; auto.
+    cbn in Hk; subst k'. destruct (Nat.eqb k key); constructor; auto; unfold rel1; cbn [fst snd]; auto.
   Qed.
 
   Definition inv (G : list (mwid * N)) (r : router H) (st : state H) (stab : Spec.stab) : Prop :=
     st_r H st = r /\ wf (st_h H st) (r_mws H r) /\ contents (st_h H st) (r_mws H r) = map mk_glob G /\
     Forall2 (rel1 G) (st_tab H st) stab.
 
-  Definition router_ok (G : list (mwid * N)) (r : router H) : Prop :=
-    r_noRoute H r = expected (scoped G KNoRoute) (base_trace KNoRoute) /\
-    r_noMethod H r = expected (scoped G KNoMethod) (base_trace KNoMethod) /\
-    r_tsr H r = expected (scoped G KRedirect) (base_trace KRedirect) /\
-    r_auto H r = expected (scoped G KOptions) (base_trace KOptions).
+  Definition router_ok (opts : list gopt) (G : list (mwid * N)) (r : router H) : Prop :=
+    r_noRoute H r = expected (scoped G KNoRoute) (base_of opts KNoRoute) /\
+    r_noMethod H r = expected (scoped G KNoMethod) (base_of opts KNoMethod) /\
+    r_tsr H r = expected (scoped G KRedirect) (base_of opts KRedirect) /\
+    r_auto H r = expected (scoped G KOptions) (base_of opts KOptions) /\
+    r_cfg H r = cfg_of opts.
 
   Ltac fin := unfold inv; cbn [st_h st_r st_tab has_panic pobs];
               repeat match goal with |- _ /\ _ => split end; auto.
 
-  Lemma run_op_spec G r st stab o :
-    router_ok G r -> inv G r st stab ->
+  Lemma run_op_spec opts G r st stab o :
+    router_ok opts G r -> inv G r st stab ->
     let '(st', m) := run_op H twrap troute grow st o in
-    let '(stab', b) := spec_op G stab o in
+    let '(stab', b) := spec_op opts G stab o in
     inv G r st' stab' /\ has_panic m = false /\ pobs m = b.
   Proof.
-    intros (Rnr & Rnm & Rts & Rau) (Hr & Hwf & Hc & Htab).
-    destruct o as [key hid ms|key hid ms|k key|key|key]; cbn [run_op spec_op].
+    intros (Rnr & Rnm & Rts & Rau & Rcfg) (Hr & Hwf & Hc & Htab).
+    destruct o as [key hid ms ts|key hid ms ts|s key|key|key]; cbn [run_op spec_op].
     - (* Handle *)
-      destruct (new_route H twrap troute grow (st_h H st) (st_r H st) hid ms) as [h1 res] eqn:Hn.
+      destruct (new_route H twrap troute grow (st_h H st) (st_r H st) hid ms ts) as [h1 res] eqn:Hn.
       rewrite Hr in Hn.
-      destruct (new_route_spec H twrap troute grow _ _ G _ _ _ _ Hwf Hc Hn) as (Hwf1 & Hc1 & Hres).
+      destruct (new_route_spec H twrap troute grow _ _ G _ _ _ _ _ Hwf Hc Hn) as (Hwf1 & Hc1 & Hres).
       destruct (has_nil ms).
       + subst res. fin.
-      + destruct Hres as (rt & -> & Hok & _).
+      + destruct Hres as (rt & -> & Hok & Hfl & _). rewrite Rcfg in Hfl.
         pose proof (lookup_rel G _ _ key Htab) as Hl.
-        destruct (lookup H key (st_tab H st)) as [rt0|], (slookup key stab) as [[hid0 rids0]|]; try contradiction.
+        destruct (lookup H key (st_tab H st)) as [rt0|], (slookup key stab) as [[[hid0 rids0] fl0]|]; try contradiction.
         * fin.
-        * destruct (alias_info H (st_r H st) rt) as [[sh l] c]. fin. constructor; auto. split; auto.
+        * destruct (alias_info H (st_r H st) rt) as [[sh l] c]. fin. constructor; auto. unfold rel1; cbn [fst snd]; auto.
     - (* Update *)
-      destruct (new_route H twrap troute grow (st_h H st) (st_r H st) hid ms) as [h1 res] eqn:Hn.
+      destruct (new_route H twrap troute grow (st_h H st) (st_r H st) hid ms ts) as [h1 res] eqn:Hn.
       rewrite Hr in Hn.
-      destruct (new_route_spec H twrap troute grow _ _ G _ _ _ _ Hwf Hc Hn) as (Hwf1 & Hc1 & Hres).
+      destruct (new_route_spec H twrap troute grow _ _ G _ _ _ _ _ Hwf Hc Hn) as (Hwf1 & Hc1 & Hres).
       destruct (has_nil ms).
       + subst res. fin.
-      + destruct Hres as (rt & -> & Hok & _).
+      + destruct Hres as (rt & -> & Hok & Hfl & _). rewrite Rcfg in Hfl.
         pose proof (lookup_rel G _ _ key Htab) as Hl.
-        destruct (lookup H key (st_tab H st)) as [rt0|], (slookup key stab) as [[hid0 rids0]|]; try contradiction.
+        destruct (lookup H key (st_tab H st)) as [rt0|], (slookup key stab) as [[[hid0 rids0] fl0]|]; try contradiction.
         * destruct (alias_info H (st_r H st) rt) as [[sh l] c]. fin. apply replace_rel; auto.
         * fin.
     - (* ServeHTTP *)
-      unfold serve, serve_trace. pose proof (lookup_rel G _ _ key Htab) as Hl. rewrite Hr.
-      destruct (lookup H key (st_tab H st)) as [rt0|], (slookup key stab) as [[hid0 rids0]|]; try contradiction.
-      + destruct Hl as (_ & _ & Hall).
-        destruct k; cbn [pobs has_panic]; (split; [fin|split; [reflexivity|]]).
+      unfold serve, serve_trace. pose proof (lookup_rel G _ _ key Htab) as Hl. rewrite Hr, Rcfg.
+      destruct (lookup H key (st_tab H st)) as [rt0|], (slookup key stab) as [[[hid0 rids0] fl0]|]; try contradiction;
+        cbn [option_map snd].
+      + destruct Hl as ((_ & _ & Hall) & ->).
+        destruct (dispatch (cfg_of opts) (Some fl0) s); cbn [pobs has_panic]; (split; [fin|split; [reflexivity|]]).
         * rewrite Hall, fold_twrap. reflexivity.
         * rewrite Rnr. reflexivity.
         * rewrite Rnm. reflexivity.
         * rewrite Rts. reflexivity.
         * rewrite Rau. reflexivity.
-      + destruct k; cbn [pobs has_panic]; (split; [fin|split; [reflexivity|]]); rewrite Rnr; reflexivity.
+      + cbn [dispatch pobs has_panic]. split; [fin|split; [reflexivity|]]. rewrite Rnr. reflexivity.
     - (* Route.Handle *)
       pose proof (lookup_rel G _ _ key Htab) as Hl.
-      destruct (lookup H key (st_tab H st)) as [rt0|], (slookup key stab) as [[hid0 rids0]|]; try contradiction;
+      destruct (lookup H key (st_tab H st)) as [rt0|], (slookup key stab) as [[[hid0 rids0] fl0]|]; try contradiction;
         (split; [fin|split; [reflexivity|]]); [|reflexivity].
-      destruct Hl as (Hb & _). cbn [pobs]. rewrite Hb. reflexivity.
+      destruct Hl as ((Hb & _) & _). cbn [pobs]. rewrite Hb. reflexivity.
     - (* Route.HandleMiddleware *)
       pose proof (lookup_rel G _ _ key Htab) as Hl.
-      destruct (lookup H key (st_tab H st)) as [rt0|], (slookup key stab) as [[hid0 rids0]|]; try contradiction;
+      destruct (lookup H key (st_tab H st)) as [rt0|], (slookup key stab) as [[[hid0 rids0] fl0]|]; try contradiction;
         (split; [fin|split; [reflexivity|]]); [|reflexivity].
-      destruct Hl as (_ & Hs & _). cbn [pobs]. rewrite Hs, fold_twrap. reflexivity.
+      destruct Hl as ((_ & Hs & _) & _). cbn [pobs]. rewrite Hs, fold_twrap. reflexivity.
   Qed.
 
-  Lemma run_ops_spec G r ops : forall st stab,
-    router_ok G r -> inv G r st stab ->
+  Lemma run_ops_spec opts G r ops : forall st stab,
+    router_ok opts G r -> inv G r st stab ->
     existsb has_panic (run_ops H twrap troute grow st ops) = false /\
-    map pobs (run_ops H twrap troute grow st ops) = spec_ops G stab ops.
+    map pobs (run_ops H twrap troute grow st ops) = spec_ops opts G stab ops.
   Proof.
     induction ops as [|o ops IH]; intros st stab Hr Hinv; cbn [run_ops spec_ops]; auto.
-    pose proof (run_op_spec G r st stab o Hr Hinv) as Hop.
-    destruct (run_op H twrap troute grow st o) as [st' m]. destruct (spec_op G stab o) as [stab' b].
+    pose proof (run_op_spec opts G r st stab o Hr Hinv) as Hop.
+    destruct (run_op H twrap troute grow st o) as [st' m]. destruct (spec_op opts G stab o) as [stab' b].
     destruct Hop as (Hinv' & Hp & Hb). destruct (IH st' stab' Hr Hinv') as (Hp' & Hm').
     cbn [existsb map]. rewrite Hp, Hp', Hb, Hm'. auto.
   Qed.
@@ -223,14 +230,17 @@ Section Runs.
   Theorem chain_exact_run gopts ops : project (run_traces grow gopts ops) = spec_run gopts ops.
   Proof.
     unfold run_traces, run_model, spec_run.
-    pose proof (new_spec H twrap base_trace grow gopts) as Hn.
+    pose proof (new_spec H twrap dflt base_trace grow gopts) as Hn.
     destruct (spec_globals gopts []) as [G|].
     - destruct Hn as (h & s & -> & Hwf & Hc). cbn [project].
-      set (r := mkRouter H s _ _ _ _).
-      assert (Hr : router_ok G r).
-      { unfold router_ok, r, special_chain; cbn [r_noRoute r_noMethod r_tsr r_auto]. rewrite !fold_twrap. auto. }
+      set (r := mkRouter H s _ _ _ _ _).
+      assert (Hr : router_ok gopts G r).
+      { unfold router_ok, r, special_chain, base_h, base_of; cbn [r_noRoute r_noMethod r_tsr r_auto r_cfg].
+        rewrite !fold_twrap.
+        assert (Hred : custom_of gopts KRedirect = false \/ base_trace KRedirect = []) by (right; reflexivity).
+        repeat split; auto. destruct (custom_of gopts KRedirect); reflexivity. }
       assert (Hinv : inv G r (mkState H h r []) []) by (unfold inv; cbn; auto).
-      destruct (run_ops_spec G r ops _ _ Hr Hinv) as (-> & ->). reflexivity.
+      destruct (run_ops_spec gopts G r ops _ _ Hr Hinv) as (-> & ->). reflexivity.
     - destruct Hn as (h & ->). reflexivity.
   Qed.
 End Runs.
